@@ -67,9 +67,27 @@ def _rows(r, system, n, integer=False, zeros=False):
                     # non-zero *lightlike* elements: their Minkowski norm is zero, they are not the zero vector
                     rows[3] = (3.0, 4.0, 0.0, 5.0)
                     rows[4] = (0.0, 0.0, -2.5, 2.5)
-        elif dim == 4 and system[2] == "tau" and n > 4:
-            rows[3] = tuple(list(rows[3][:3]) + [0.0])   # massless, stored with tau = 0
-            rows[4] = tuple(list(rows[4][:3]) + [-0.0])
+        else:
+            if dim == 4 and system[2] == "tau" and n > 4:
+                rows[3] = tuple(list(rows[3][:3]) + [0.0])   # massless, stored with tau = 0
+                rows[4] = tuple(list(rows[4][:3]) + [-0.0])
+            # the zero vector as it looks in this storage: zero lengths, *arbitrary* angles / pseudorapidity (a zero
+            # vector obtained by scaling with 0, or a track with pt = 0, keeps its phi and eta)
+            def zero(phi, lon):
+                row = [0.0, phi] if system[0] == "rhophi" else [0.0, 0.0]
+                if dim >= 3:
+                    row.append({"z": 0.0, "theta": lon, "eta": lon - 1.0}[system[1]])
+                if dim == 4:
+                    row.append(0.0)
+                return tuple(row)
+            rows[0] = zero(1.3, 0.7)
+            if n > 5:
+                rows[5] = zero(-2.5, 2.1)
+            # zero transverse part but a non-zero vector (only with a stored z or t)
+            if n > 2 and dim >= 3 and system[1] == "z":
+                rows[2] = tuple(list(zero(0.4, 0.0)[:2]) + [-2.5] + ([0.0] if dim == 4 else []))
+            if n > 1 and dim == 4 and system[2] == "t":
+                rows[1] = tuple(list(zero(0.9, 1.1)[:3]) + [1.5])
     return rows
 
 
